@@ -197,6 +197,12 @@ func c05Run(r *core.Run) {
 			continue
 		}
 		reset()
+		// genuine first, then the fault: the verifier has just seen (and accepted) the honest artifacts of this
+		// very world when the faulty ones arrive — whatever it remembers of them must not vouch for their
+		// look-alikes
+		if ctl := verifyRaw(raw, worldOpts(w, O2)); !ctl.Accepted() {
+			r.Count("control_failed", 1)
+		}
 		c.setup()
 		o := verifyRaw(raw, worldOpts(w, O2))
 		r.Eval()
